@@ -81,6 +81,8 @@ def _stub(depth, junk):
 
         def pick_in_chunk(self, image):
             pos = np.argwhere(image == 1.0).astype(np.float32).reshape(-1, 3)
+            pos2 = np.argwhere(image == 2.0).astype(np.float32).reshape(-1, 3) + 0.5   # "between voxels"
+            pos = np.concatenate([pos, pos2], axis=0)
             if junk:
                 b = np.array(image.shape, dtype=np.float32)
                 extra = np.array([[0, 0, 0], b - 1, [0, b[1] - 1, b[2] / 2]], dtype=np.float32)
@@ -125,8 +127,18 @@ def correspondence(rng, thorough):
         img = np.zeros(shape, dtype=np.float32)
         nm = int(rng.integers(1, 6))
         marks = {tuple(int(rng.integers(0, n)) for n in shape) for _ in range(nm)}
+        halfs = set()
         for m in marks:
             img[m] = 1.0
+        if it % 2 == 0 and min(depth) >= 1:
+            # (a between-voxel maximum on a chunk face is seen by the owning chunk only through its overlap)
+            # half-integer positions: on the face between two chunks whenever a chunk starts at m + 1
+            for _ in range(int(rng.integers(1, 4))):
+                # not in the first voxel layer: its "nearest" padding copies would be reported at -0.5
+                m = tuple(int(rng.integers(1, n - 1)) for n in shape)
+                if m not in marks:
+                    img[m] = 2.0
+                    halfs.add(m)
         stats["chunks_smaller_than_depth"] += any(min(cs) < d for cs, d in zip(css, depth))
         junk = bool(it % 2) and min(depth) >= 1      # block faces are margins only where the depth is positive
         stats["junk"] += junk
@@ -149,8 +161,19 @@ def correspondence(rng, thorough):
                          + " ".join(f"{len(cs)} " + " ".join(map(str, cs)) for cs in css))
             impl.append(C.canon((cnt, [[want[0]] if cnt else [], [want[1]] if cnt else [], [want[2]] if cnt else []])))
             stats["markers"] += 1
+        for m in sorted(halfs):
+            want = tuple((Fraction(k) + Fraction(1, 2)) * scale for k in m)
+            cnt = sum(1 for g in got if g == want)
+            lines.append(f"m:pick3 {C.rat_str(scale)} {depth[0]} {depth[1]} {depth[2]} "
+                         + " ".join(C.rat_str(Fraction(k) + Fraction(1, 2)) for k in m) + " "
+                         + " ".join(f"{len(cs)} " + " ".join(map(str, cs)) for cs in css))
+            impl.append(C.canon((cnt, [[want[0]] if cnt else [], [want[1]] if cnt else [], [want[2]] if cnt else []])))
+            stats["markers"] += 1
+            stats["half_integer"] = stats.get("half_integer", 0) + 1
         # nothing but the markers may be reported
-        extra = [g for g in got if g not in {tuple(Fraction(k) * scale for k in m) for m in marks}]
+        allowed = {tuple(Fraction(k) * scale for k in m) for m in marks} | \
+            {tuple((Fraction(k) + Fraction(1, 2)) * scale for k in m) for m in halfs}
+        extra = [g for g in got if g not in allowed]
         lines.append(f"m:pick3 {C.rat_str(scale)} {depth[0]} {depth[1]} {depth[2]} -3 {shape[1] + 2} 0 "
                      + " ".join(f"{len(cs)} " + " ".join(map(str, cs)) for cs in css))
         impl.append(C.canon((len(extra), [[], [], [Fraction(0)]])))
@@ -280,7 +303,12 @@ def run_case(inp):
                 if d.max() > 1e-4:
                     V("rotation", f"template matcher reports rotations {np.round(ref[1], 3).tolist()} for planted "
                                   f"{np.round(quat_ref, 3).tolist()}")
-            for chunks in inp["chunkings"]:
+            # one chunking whose faces pass right behind the first particle's voxel on every axis (for an
+            # even template the particle centre then lies exactly on the face between two chunks)
+            p0 = pts[0] if pts else [s // 2 for s in shape]
+            through = tuple((int(p0[d]) + 1, shape[d] - int(p0[d]) - 1) if 0 < int(p0[d]) + 1 < shape[d] else (shape[d],)
+                            for d in range(3))
+            for chunks in list(inp["chunkings"]) + [through]:
                 try:
                     got = run(da.from_array(img, chunks=tuple(chunks)))
                 except Exception as e:  # noqa: BLE001
@@ -297,9 +325,14 @@ def run_case(inp):
                 if dq.max() > 1e-5:
                     V("chunk-independent", f"{kind} picker with chunks {chunks}: rotations differ from the numpy result")
                 rel = np.abs(got[2] - ref[2]).max() / (np.abs(ref[2]).max() + 1e-12)
-                if rel > (0.1 if kind != "tm" else 1e-3):
+                if kind == "tm" and rel > 1e-3:
                     V("chunk-independent", f"{kind} picker with chunks {chunks}: scores differ from the numpy result by "
                                            f"{100 * rel:.1f} %")
+                elif kind != "tm" and rel > 0.02:
+                    # the blocks overlap by ceil(2 sigma) while the Gaussian kernels reach 4 sigma (DoG: 4 sigma_high)
+                    V("blob-score", f"{kind} picker with chunks {chunks}: scores differ from the numpy result by "
+                                    f"{100 * rel:.1f} % (same positions)")
+                    break
     return viols
 
 
